@@ -61,68 +61,53 @@ Definition b2z (b : bool) : Z := if b then 1 else 0.
 Definition ne (a b : Z) : bool := negb (a =? b).
 Definition eq (a b : Z) : bool := a =? b.
 
-(* the four shifted copies at a position of the (H+3) x (W+3) work arrays *)
-Definition i00 (im : img) (y x : Z) : Z := g im (y - 1) (x - 1).
-Definition i01 (im : img) (y x : Z) : Z := g im (y - 1) x.
-Definition i10 (im : img) (y x : Z) : Z := g im y (x - 1).
-Definition i11 (im : img) (y x : Z) : Z := g im y x.
+(* The four work arrays I00, I01, I10, I11 are zero-padded shifted copies of the label image:
+   I00 = pad 1 2 1 2 labels, and at a position (y, x) of the (H+3) x (W+3) arrays
+   I00 = labels(y-1, x-1) (the pixel the position is keyed by), I01 = labels(y-1, x),
+   I10 = labels(y, x-1), I11 = labels(y, x).  [nb di dj] is the label at the key pixel + (di, dj). *)
+Definition nbf (im : img) (y x : Z) (di dj : Z) : Z := g im (y - 1 + di) (x - 1 + dj).
 
 (* slice_00 = [1 : H+1, 1 : W+1] *)
 Definition in00 (h w y x : Z) : bool := (1 <=? y) && (y <=? h) && (1 <=? x) && (x <=? w).
 
-Definition q1_cond (im : img) (h w y x : Z) : Z :=
-  b2z (ne (i00 im y x) (i01 im y x) && ne (i00 im y x) (i10 im y x) && ne (i00 im y x) (i11 im y x))
-  + (if in00 h w y x then
-       (* (NE01_00 & NE01_10 & NE01_11)[slice_01] *)
-       b2z (ne (i00 im y (x - 1)) (i01 im y (x - 1)) && ne (i01 im y (x - 1)) (i10 im y (x - 1))
-            && ne (i01 im y (x - 1)) (i11 im y (x - 1)))
-       (* (NE10_00 & NE10_01 & NE10_11)[slice_10] *)
-       + b2z (ne (i00 im (y - 1) x) (i10 im (y - 1) x) && ne (i01 im (y - 1) x) (i10 im (y - 1) x)
-              && ne (i10 im (y - 1) x) (i11 im (y - 1) x))
-       (* (NE11_00 & NE11_01 & NE11_10)[slice_11] *)
-       + b2z (ne (i00 im (y - 1) (x - 1)) (i11 im (y - 1) (x - 1))
-              && ne (i01 im (y - 1) (x - 1)) (i11 im (y - 1) (x - 1))
-              && ne (i10 im (y - 1) (x - 1)) (i11 im (y - 1) (x - 1)))
+Definition q1k (nb : Z -> Z -> Z) (inb : bool) : Z :=
+  b2z (ne (nb 0 0) (nb 0 1) && ne (nb 0 0) (nb 1 0) && ne (nb 0 0) (nb 1 1))
+  + (if inb then
+       (* (NE01_00 & NE01_10 & NE01_11)[slice_01] : the quad one column to the left *)
+       b2z (ne (nb 0 (-1)) (nb 0 0) && ne (nb 0 0) (nb 1 (-1)) && ne (nb 0 0) (nb 1 0))
+       (* (NE10_00 & NE10_01 & NE10_11)[slice_10] : the quad one row up *)
+       + b2z (ne (nb (-1) 0) (nb 0 0) && ne (nb (-1) 1) (nb 0 0) && ne (nb 0 0) (nb 0 1))
+       (* (NE11_00 & NE11_01 & NE11_10)[slice_11] : the quad up and left *)
+       + b2z (ne (nb (-1) (-1)) (nb 0 0) && ne (nb (-1) 0) (nb 0 0) && ne (nb 0 (-1)) (nb 0 0))
      else 0).
 
-Definition q3_cond (im : img) (h w y x : Z) : Z :=
-  b2z (eq (i00 im y x) (i10 im y x) && eq (i00 im y x) (i01 im y x) && ne (i00 im y x) (i11 im y x))
-  + (if in00 h w y x then
+Definition q3k (nb : Z -> Z -> Z) (inb : bool) : Z :=
+  b2z (eq (nb 0 0) (nb 1 0) && eq (nb 0 0) (nb 0 1) && ne (nb 0 0) (nb 1 1))
+  + (if inb then
        (* (NE11_00 & EQ11_10 & EQ11_01)[slice_11] *)
-       b2z (ne (i00 im (y - 1) (x - 1)) (i11 im (y - 1) (x - 1))
-            && eq (i10 im (y - 1) (x - 1)) (i11 im (y - 1) (x - 1))
-            && eq (i01 im (y - 1) (x - 1)) (i11 im (y - 1) (x - 1)))
+       b2z (ne (nb (-1) (-1)) (nb 0 0) && eq (nb 0 (-1)) (nb 0 0) && eq (nb (-1) 0) (nb 0 0))
      else 0)
-  + b2z (ne (i00 im y x) (i01 im y x) && eq (i00 im y x) (i10 im y x) && eq (i00 im y x) (i11 im y x))
-  + b2z (ne (i00 im y x) (i10 im y x) && eq (i00 im y x) (i01 im y x) && eq (i00 im y x) (i11 im y x)).
+  + b2z (ne (nb 0 0) (nb 0 1) && eq (nb 0 0) (nb 1 0) && eq (nb 0 0) (nb 1 1))
+  + b2z (ne (nb 0 0) (nb 1 0) && eq (nb 0 0) (nb 0 1) && eq (nb 0 0) (nb 1 1)).
 
-Definition qd_cond (im : img) (h w y x : Z) : Z :=
-  b2z (ne (i00 im y x) (i01 im y x) && ne (i00 im y x) (i10 im y x) && eq (i00 im y x) (i11 im y x))
-  + (if in00 h w y x then
+Definition qdk (nb : Z -> Z -> Z) (inb : bool) : Z :=
+  b2z (ne (nb 0 0) (nb 0 1) && ne (nb 0 0) (nb 1 0) && eq (nb 0 0) (nb 1 1))
+  + (if inb then
        (* (NE01_00 & NE01_11 & EQ01_10)[slice_01] *)
-       b2z (ne (i00 im y (x - 1)) (i01 im y (x - 1)) && ne (i01 im y (x - 1)) (i11 im y (x - 1))
-            && eq (i01 im y (x - 1)) (i10 im y (x - 1)))
+       b2z (ne (nb 0 (-1)) (nb 0 0) && ne (nb 0 0) (nb 1 0) && eq (nb 0 0) (nb 1 (-1)))
      else 0).
 
-(* positions of an h x w array in raster order *)
-Definition grid (h w : nat) : list (Z * Z) :=
-  flat_map (fun y => map (fun x => (y, x)) (zrange 0 w)) (zrange 0 h).
-
-Definition quad_score (im : img) (h w : Z) (yx : Z * Z) : Z :=
-  q1_cond im h w (fst yx) (snd yx) - q3_cond im h w (fst yx) (snd yx)
-  - 2 * qd_cond im h w (fst yx) (snd yx).
+(* scind.sum(Qx_condition, I00, indexes) for one of the three condition arrays *)
+Definition euler_pairs (qk : (Z -> Z -> Z) -> bool -> Z) (im : img) : list (Z * Z) :=
+  let hz := Z.of_nat (length im) in
+  let wz := Z.of_nat (width im) in
+  lab_pairs (fun p => qk (nbf im (p_y p) (p_x p)) (in00 hz wz (p_y p) (p_x p))) (pad 1 2 1 2 im).
 
 (* 4 * W per requested label: (Q1 - Q3 - 2 QD), every sum keyed by I00 *)
 Definition euler4 (im : img) (idxs : list Z) : list Z :=
-  let h := length im in
-  let w := width im in
-  let cells := grid (h + 3)%nat (w + 3)%nat in
-  let key := fun yx : Z * Z => i00 im (fst yx) (snd yx) in
-  let hz := Z.of_nat h in
-  let wz := Z.of_nat w in
-  let q1 := nd_fold 0 Z.add (map (fun yx => (key yx, q1_cond im hz wz (fst yx) (snd yx))) cells) idxs in
-  let q3 := nd_fold 0 Z.add (map (fun yx => (key yx, q3_cond im hz wz (fst yx) (snd yx))) cells) idxs in
-  let qd := nd_fold 0 Z.add (map (fun yx => (key yx, qd_cond im hz wz (fst yx) (snd yx))) cells) idxs in
+  let q1 := nd_fold 0 Z.add (euler_pairs q1k im) idxs in
+  let q3 := nd_fold 0 Z.add (euler_pairs q3k im) idxs in
+  let qd := nd_fold 0 Z.add (euler_pairs qdk im) idxs in
   map (fun t => match t with (a, (b, c)) => a - b - 2 * c end) (combine q1 (combine q3 qd)).
 
 (* ------------------------------------------------------------------ median_of_labels *)
